@@ -87,6 +87,10 @@ def verify_function(eng: Exec, c: Contract, recheck_cvc5=False, model_hook=None)
             if terminal:
                 res.terminal_paths += 1
             stack.extend(st.alternatives)
+            if os.environ.get("PYVC_TRACE"):
+                print("path %d terminal=%s obs=%d alts=%d stack=%d t=%.1fs trace=%s" % (
+                    pid, terminal, len(st.obligations), len(st.alternatives), len(stack), time.time() - t0,
+                    [(str(a)[:18], b) for a, b in st.trace[-6:]]), flush=True)
             inc = solve.PathSolver(st.facts, hard)
             for ob in st.obligations:
                 ob.path_id = pid
